@@ -4,7 +4,8 @@ obligations for C03/C04).
 The encoder re-reads, on every run, the current source of
     Event.__call__, StateMachine._put_nonblocking, StateMachine._processing_loop, BaseEngine.put,
     SyncEngine.processing_loop / AsyncEngine.processing_loop
-inlines the calls along that chain and lowers the statements to a small control-flow IR over the shared objects
+and of the second entry StateMachine.activate_initial_state -> <engine>.activate_initial_state,
+inlines the calls along those chains (also other methods of the engine class the chains call on self) and lowers the statements to a small control-flow IR over the shared objects
 (engine queue, processing lock).  try/finally and try/except are lowered the way a compiler does (handler and
 finally blocks duplicated on every exit edge).  `_trigger` is opaque: begin, optional nested put, optional yields
 (async), end-or-raise.  Anything the lowering does not understand raises Unsupported(file:line): the check then ends
